@@ -96,6 +96,11 @@ CHECKS = {
          "Workloads of 1..40 field sections over a small name/value alphabet (forcing duplicates, name references, evictions), capacities {0, one entry, 100, 256, 64..400, 4096}, blocked limits {0,1,2,100}, and tape-chosen schedules over {encode, deliver 1..n encoder-stream bytes, try to decode a pending section, acknowledge, deliver decoder-stream bytes, cancel a stream}. (1) h3's Decoder returns the original list once its dependencies were delivered and MissingRefs (never another list or error) before; no call of a legal exchange fails; (2) the independent reference decoder, fed the same bytes at emission, decodes every section to the original list; (3) the reference-tracked table never exceeds capacity and no instruction evicts an entry referenced by a section whose acknowledgement has not reached the encoder. One known finding (encoder evicts unacknowledged insertions and outruns the Required-Insert-Count window) is excluded by an exact predicate and counted.",
          "trusted: src/reference/qpack_dyn.rs (self-tested against RFC 9204 Appendix B); legal exchange = acks only for sections with non-zero Required Insert Count, per stream in order, no traffic on a cancelled stream",
          "DESIGN.md section 3 C20"),
+ "C05": ("interleave",
+         "systematic schedule enumeration (depth-first over hook-point choices, harness-owned interleaving of real OS threads) + property-based sampling of larger races; oracle = invariant over the history: one error, same everywhere, driver never parked",
+         "Scenarios prepared single-threaded over simnet (role; driver polled before or never; 1..3 request handles each about to raise a different connection error; the last SendRequest drop; a transport ApplicationClose; an error the driver detects itself). In the race each task performs ONE poll on its own OS thread; a baton scheduler decides at every hook point (before connection_error.get / get_or_init / waker.register / waker.wake) who runs next. All interleavings are enumerated for one racing handle (quick) and two (thorough); three are sampled. E = the error whose store step ran first: the driver returned E or was woken and then returns E (parked with the error set = violation); exactly one close with E's code for h3-detected errors, none for transport errors; five further driver polls return E; no handle ever reports a different connection error, in the race or in later calls.",
+         "trusted: AtomicWaker and OnceLock are atomic at the hook granularity; weak-memory reorderings are not modelled (DESIGN.md section 4); later calls follow the documented pattern (a failed receive call is only repeated)",
+         "DESIGN.md section 3 C05, 2.7"),
 }
 
 NOT_YET = "check not built yet in this session (see DESIGN.md section 5 for the construction order); no claim is made"
@@ -143,6 +148,7 @@ def main():
         },
         "engines": [
             {"name": "codec", "path": "harness/src/props (E1)", "serves_properties": ["C02", "C11", "C12", "C15", "C16", "C18"], "kind_free_text": "pure codec functions called directly; proptest over choice tapes, exhaustive loops, libFuzzer targets with the oracle inside"},
+            {"name": "interleave", "path": "harness/src/interleave (E3)", "serves_properties": ["C05"], "kind_free_text": "baton scheduler over OS threads parked at cfg-guarded hook points inside h3: the harness owns the order of the shared-state operations of the connection error path"},
             {"name": "qpack-stateful", "path": "harness/src/props/c20.rs + harness/src/reference/qpack_dyn.rs (E5)", "serves_properties": ["C20"], "kind_free_text": "h3's stateful QPACK Encoder/Decoder (hook re-export) driven by generated workloads and delivery schedules next to a reference decoder"},
             {"name": "simnet", "path": "harness/src/simnet (E2)", "serves_properties": ["C01", "C03", "C04", "C06", "C07", "C08", "C09", "C10", "C12", "C13", "C14", "C19"], "kind_free_text": "real h3 client/server over a deterministic in-memory QUIC transport with a tape-driven scheduler and executor"},
         ],
